@@ -967,7 +967,7 @@ func runC16(r *hx.Result, rng *hx.Rng, thorough bool, replay string) error {
 	c16SearchSingleapp(c, rng.Fork(), scale)
 	phase("singleapp")
 
-	r.Sample(map[string]interface{}{"decoder": "txmd", "input": "010005", "impl": c.decOut("txmd", []byte{1, 0, 5}), "model": "panic (theorem txMetadata_readFrom_panics)"})
+	r.Sample(map[string]interface{}{"decoder": "txmd", "input": "010005", "impl": c.decOut("txmd", []byte{1, 0, 5}), "model": "err:corruptedData (theorem txMetadata_readFrom_rejects_overrun; panic without the guard: txMetadata_readFrom_guard_needed)"})
 	r.Sample(map[string]interface{}{"decoder": "txmd", "input": "0000000000000000090100020708", "impl": c.decOut("txmd", []byte{0, 0, 0, 0, 0, 0, 0, 0, 9, 1, 0, 2, 7, 8})})
 	r.Sample(map[string]interface{}{"decoder": "kvmd", "input": "00010000000000000009" + "02", "impl": c.decOut("kvmd", []byte{0, 1, 0, 0, 0, 0, 0, 0, 0, 9, 2})})
 	r.Sample(map[string]interface{}{"decoder": "appmd", "input": "00000000", "impl": c.decOut("appmd", []byte{0, 0, 0, 0}), "model": "panic (theorem appMetadata_readFrom_panics)"})
@@ -1362,7 +1362,7 @@ func c16FirstDiff(a, b []byte) int {
 
 func c16ReplicateTemplates(v []byte) []c16Input {
 	var out []c16Input
-	// the exact witnesses of Props/C16.lean (replicateTx_panics_vLen/_tLen/_tZero): 00 00 00 7c + a synthetic
+	// the exact inputs of Props/C16.lean (replicateTx_rejects_vLen/_tLen/_tZero and their *_guard_needed twins): 00 00 00 7c + a synthetic
 	// version-0 header (ID 1, NEntries 1), then the malformed entry / trailer
 	rh := []byte{0, 0, 0, 124, 0, 0, 0, 0, 0, 0, 0, 1}
 	rh = append(rh, make([]byte, 32+8)...)
